@@ -126,7 +126,10 @@ def run(prog, rep):
             while "*&" in a[2]:
                 a[2] = a[2].replace("*&", "")
             stmt = canon_full(strip(tr.operand(ex[0][1]["args"][0])))
-            ok = a[0].lstrip("*") == stmt.lstrip("*") and a[1].lstrip("*") == "arg:self" and re.match(r"^&?\(Try::branch\(Option::ok_or_else\(Iterator::next\(&QueryMatch::nodes_for_capture_index\(&\*?\*?arg:mat, cast\(\*arg:self\.%s\)\)\), " % idx, a[2]) is not None
+            ok = a[0].lstrip("*") == stmt.lstrip("*") and a[1].lstrip("*") == "arg:self" and (re.match(r"^&?\(Try::branch\(Option::ok_or_else\(Iterator::next\(&QueryMatch::nodes_for_capture_index\(&\*?\*?arg:mat, cast\(\*arg:self\.%s\)\)\), " % idx, a[2]) is not None or
+                                                                                   # … or the spelled-out `match …next() { Some(n) => n, None => return Err(UndefinedCapture) }`
+                                                                                   (re.match(r"^&?\(Iterator::next\(&QueryMatch::nodes_for_capture_index\(&\*?\*?arg:mat, cast\(\*arg:self\.%s\)\)\) as Some\)\.0$" % idx, a[2]) is not None and
+                                                                                    any(st["k"] == "assign" and st["rv"]["k"] == "aggregate" and st["rv"].get("variant") == "UndefinedCapture" for bb in sorted(body.reachable()) for st in body.blocks[bb]["stmts"])))
             # the context object handed to the statement carries it
             ctxs = [st for bb in sorted(body.reachable()) for st in body.blocks[bb]["stmts"] if st["k"] == "assign" and st["rv"]["k"] == "aggregate" and (st["rv"].get("adt") or "").endswith("::ExecutionContext")]
             if ctxs:
